@@ -147,6 +147,27 @@ def many_things(n):
     return m
 
 
+def name_payload(entries):
+    def nm(x):
+        b = x.encode()
+        return wasm.uleb(len(b), 0) + b
+    sub = wasm.uleb(len(entries), 0) + b''.join(wasm.uleb(i, 0) + nm(n) for i, n in entries)
+    return b'\x01' + wasm.uleb(len(sub), 0) + sub
+
+
+def namesec_module(pos, payload):
+    m = Module()
+    m.import_func('env', 'h0', [], [])
+    m.import_func('env', 'h1', [], [])
+    for i in range(3):
+        m.add_func([], [I32], [], [('i32.const', 40 + i)])
+    m.exports.append(('x', 'func', 2))
+    m.mems.append((1, None, False))
+    m.datas.append(dict(mode='active', offset=[('i32.const', 0)], bytes=b'abc'))
+    m.customs.append((pos, 'name', payload))
+    return m
+
+
 def shapes(rnd, tier='quick'):
     """yield (class, module) pairs."""
     q = tier == 'quick'
@@ -186,6 +207,20 @@ def shapes(rnd, tier='quick'):
     out.append(('data-many-segments', big_data(10, 2000)))
     out.append(('body-100000-instr', big_body(100000)))
     out.append(('many-types-globals-exports', many_things(2000)))
+    # name sections (only read with -g) at every section boundary, naming imports / defined functions / all, and malformed name
+    # sections: a custom section can never make a module invalid, whatever it contains and wherever it sits
+    for pos in (0, 1, 2, 3, 5, 7, 9, 10, 11, 99):
+        for which, ent in (('imports', [(0, 'imp_a'), (1, 'imp_b')]), ('defined', [(3, 'def_c')]), ('all', [(0, 'a'), (1, 'b'), (2, 'c'), (3, 'd'), (4, 'e')])):
+            out.append(('namesecpos-at%d-%s' % (pos, which), namesec_module(pos, name_payload(ent))))
+    for pos in (2, 3, 10, 99):
+        for tag, pl in (('junk', b'\xff\xfe\x01'), ('oob-index', name_payload([(99, 'z')])), ('unsorted', name_payload([(3, 'c'), (2, 'b')])),
+                        ('dup-index', name_payload([(2, 'b'), (2, 'c')])), ('truncated-sub', b'\x01\x20\x01\x02\x01a'), ('big-sub', b'\x05\x7f'),
+                        ('unknown-sub', b'\x07\x02ab' + name_payload([(2, 'b')])), ('empty', b''), ('count-too-big', b'\x01\x03\x7f\x00\x00'),
+                        ('name-too-long', b'\x01\x04\x01\x02\x7fa'), ('local-names', b'\x02\x06\x01\x02\x01\x00\x01x' + name_payload([(2, 'b')]))):
+            out.append(('namesecbad-%s-at%d' % (tag, pos), namesec_module(pos, pl)))
+    m2 = namesec_module(99, name_payload([(2, 'first')]))
+    m2.customs.append((99, 'name', name_payload([(3, 'second')])))
+    out.append(('namesecpos-twice', m2))
     # ordinary generated programs
     for k in range(4 if q else 30):
         c = gen.build_program_module(env_rng(rnd, k), gen.Profile(), n_funcs=8)
